@@ -375,6 +375,20 @@ theorem leaked_budget_breaks_next_invocation :
       = [.returned ⟨.dictOk, 0⟩, .raised ⟨.connTimeout, 1⟩] := by
   decide
 
+/-! ### several invocations in flight on one shared runner object: each behaves as if it were alone -/
+
+/-- **no instance state**: whatever the interleaving of the invocations' attempts (any schedule that gives invocation
+    `j` enough quanta to finish), invocation `j` ends exactly as `retry` says for *its own* parameters and *its own*
+    delegate outcomes — the settings of the invocations that run in between are irrelevant -/
+theorem interleaving_irrelevant (calls : List (Params × List Outcome)) (sched : List Nat) (j : Nat)
+    (p : Params) (outs : List Outcome) (hj : calls[j]? = some (p, outs)) (hfair : outs.length + 1 ≤ sched.count j) :
+    ((runSchedule sched (calls.map (fun c => startInv c.1 c.2)))[j]?).map (fun v => (v.res, v.trace))
+      = some (some (retry p outs).res, (retry p outs).trace) := by
+  rw [runSchedule_get]
+  simp only [List.getElem?_map, hj, Option.map_some, startInv]
+  have := iterate_stepInv (cfg p) 0 outs [] (sched.count j) hfair
+  simp [this, retry]
+
 /-! ### non-vacuity: concrete inputs meeting the hypotheses (tests, labelled as tests) -/
 
 -- the unit-test scenario "mixed timeout and application errors", retries = 5
@@ -406,6 +420,12 @@ example : retryCluster ⟨false, none, some 2, none, some 2, none⟩
 -- a 404 answer propagates at once
 example : retryCluster ⟨false, none, some 2, some true, none, none⟩ [⟨[.error .apiOther 4], ⟨.dictOk, 0⟩⟩, ⟨[.doc], ⟨.dictOk, 1⟩⟩]
     = ⟨.raised ⟨.apiOther, 4⟩, [.call]⟩ := by decide
+
+-- two invocations with different settings, interleaved attempt by attempt: each ends as it would alone
+example : (runSchedule [0, 1, 0, 1, 0, 1, 0, 1]
+      [startInv ⟨false, none, some 3, none, some 1, none⟩ [⟨.connTimeout, 0⟩, ⟨.connTimeout, 1⟩, ⟨.connTimeout, 2⟩, ⟨.connTimeout, 3⟩],
+       startInv ⟨false, none, none, none, none, none⟩ [⟨.dictOk, 0⟩]]).map (·.res)
+    = [some (.raised ⟨.connTimeout, 3⟩), some (.returned ⟨.dictOk, 0⟩)] := by decide +kernel
 
 /-! ### historical witness (labelled as such): the behaviour before the fix 9eaa174
 
